@@ -469,6 +469,9 @@ def _harness(ctx, cfg):
     if p.N >= 3:
         # reachability twin on the PRE-state (also counted on paths that end in a refusal)
         ctx.witness("division", Or([S0.sh.outdeg[i] == 2 for i in range(p.N)]))
+    if p.shape[0] >= 3 and p.N >= 2:
+        ctx.witness("skip_edge_pre", Or([And(S0.sh.A[i][j], p.t0[j] - p.t0[i] > 1) for i in range(p.N)
+                                         for j in range(p.N) if i != j]))
     if kind == "paint":
         act, exc, info = paint(ctx, p, cfg)
     else:
